@@ -502,7 +502,10 @@ def check_phase(emit, spec, rows, phase, tol, ta):
             else:
                 keeps = sgn(vout) == sgn(vref)
             okp = keeps and not lost
-            polarity_lost = polarity_lost or not okp
+            # "lost polarity" (the F2 regime, which C03 judges and the other row checks skip) is the REFERENCE law
+            # saying so for the reported operating point; a table that merely shows a wrong sign / a zero where the
+            # law keeps the polarity is an ordinary law violation and is judged as such
+            polarity_lost = polarity_lost or lost
             emit("phys.polarity", okp, lambda: det(reference_lost_polarity=lost))
             oka = abs(vout) <= abs(vref) + 2 * tol.dV(vref)
             emit("phys.no_gain", oka, lambda: det(reference=vref, reference_lost_polarity=lost))
